@@ -105,4 +105,13 @@ def run(ctx):
                            "length (DST switch, months) the weights of one major interval do not sum to one" % (au.short(emitted, 30), au.short(num.slice, 30)),
                            node=num)
     if not found:
-        ctx.ob("C13.e", helper, "weight formula", None, "no ratio of two grid arrays found in the helper (rewritten?)")
+        # the factor written to the emitted rows exists but is no ratio of step lengths any more
+        fac = [st for st in au.walk_stmts(helper.body) if isinstance(st, ast.Assign) and isinstance(st.targets[0], ast.Subscript)
+               and au.const_str(st.targets[0].slice) == "disp_factor"]
+        uses_dt = any(isinstance(x, ast.Attribute) and x.attr == "dt" for st in au.walk_stmts(helper.body) for x in au.walk_own(st))
+        if fac and not uses_dt:
+            ctx.ob("C13.e", helper, "weight formula", False,
+                   "the dispatch factor of the minor-grid rows is no longer dt(minor step) / dt(major interval): with an equal share per "
+                   "step the rate of a coarse asset is not constant on grids whose steps differ in length (DST switch, months)", node=fac[0])
+        else:
+            ctx.ob("C13.e", helper, "weight formula", None, "no ratio of two grid arrays found in the helper (rewritten?)")
